@@ -165,7 +165,7 @@ def __parse_unit_string_to_list(unit_string: str) -> List[Union[str, List]]:
     fraction = r"\^\(-?[0-9]+/[0-9]+\)"
     token_pattern = re.compile(
         r"[a-zA-Z]+(\^-?[0-9]+|{0})?|/|\*|\(([^()]|{0})*\)".format(fraction))
-    bracket_enclosed_expression_pattern = re.compile(r"\(.*?\)")
+    bracket_enclosed_expression_pattern = re.compile(r"\(.*?\)", re.DOTALL)
     unit_with_exponent_pattern = re.compile(r"[a-zA-Z]+(\^-?[0-9]+|{})".format(fraction))
     operator_pattern = re.compile(r"[/*]")
 
